@@ -1,5 +1,5 @@
 # Human-written text for MANIFEST.json entries (see bin/genmanifest.py).
-HOOK_COMMITS = ["efc17db", "9ef71b0"]
+HOOK_COMMITS = ["efc17db", "9ef71b0", "f0877fd"]
 NOTES = "Property-based testing and fuzzing only; see DESIGN.md. Properties not yet claimed are listed under not_applicable with the reason 'check not built yet' until their check lands."
 
 ALL = ["C%02d" % i for i in range(1, 21)]
